@@ -511,7 +511,6 @@ func scenario(p params, bounds []int) *vexp.Scenario {
 					rule("C09", "zombie-released-by-kill", "zombie /u/t/s/a still registered after Kill")
 				}
 			}
-			vrt.Freeze()
 			err := w.Sys.Stop()
 			vrt.Quiesce()
 			if err != nil {
@@ -548,7 +547,13 @@ func build(tier string) []*vexp.Scenario {
 		bounds = []int{0, 1, 2}
 	}
 	var out []*vexp.Scenario
-	add := func(p params) { out = append(out, scenario(p, bounds)) }
+	add := func(p params) {
+		out = append(out, scenario(p, bounds))
+		// hybrid variant: preemption at the lock / atomic operations of packages actor and mailbox
+		if p.cause == "panic" && p.pos == 2 && p.hook == "none" && !p.second && (p.site == "msg" || p.site == "launch" || p.site == "childKilled") {
+			out = append(out, vexp.Fine(scenario(p, []int{0, 1}), "vivid/internal/actor.", "vivid/internal/mailbox."))
+		}
+	}
 	base := params{site: "msg", cause: "panic", dec: vivid.SupervisionDecisionRestart, dec2: vivid.SupervisionDecisionResume, dec3: vivid.SupervisionDecisionResume, pos: 2, hook: "none"}
 	for _, site := range []string{"launch", "msg", "childKilled", "sched"} {
 		for _, cause := range []string{"panic", "failed"} {
